@@ -60,31 +60,26 @@ Theorem C05_run_is_point_read : forall cx, id_ok (cx_instance cx) -> forall lo h
 Proof. exact chunk_is_point_read. Qed.
 Print Assumptions C05_run_is_point_read.
 
-(* BadgerDB.Get is that verdict read through the store; a conflict and an empty stored value both
-   come out as "nothing" *)
+(* BadgerDB.Get (with repo_patches/C05-1-fix) is that verdict read through the store: the value the
+   range returns for the TKey, nothing when the range skips it; an unresolved conflict, which fails
+   the range, reads as nothing *)
 Theorem C05_point_get_is_verdict : forall best cx,
   (forall ks k, best ks = Ok (Some k) -> In k ks) -> forall tk s, sorted s ->
   point_get best cx tk s =
   match point_kv best cx tk s with
-  | Ok (Some (_, v)) => match v with [] => None | _ => Some v end
+  | Ok (Some (_, v)) => Some v
   | _ => None
   end.
 Proof. exact point_get_verdict. Qed.
 Print Assumptions C05_point_get_is_verdict.
 
-Theorem C05_point_get_partial : forall best cx tk s,
-  (forall ks k, best ks = Ok (Some k) -> In k ks) ->
-  sorted s -> (forall e, In e s -> snd e <> []) ->
-  point_get best cx tk s = match point_kv best cx tk s with Ok (Some (_, v)) => Some v | _ => None end.
-Proof. exact point_get_nonempty. Qed.
-Print Assumptions C05_point_get_partial.
-
-(* without the guard "no stored value is empty": a key posted with an empty body is listed by the
-   keys-only scan and exists, but its point read finds nothing (known finding C05-empty-value) *)
+(* the code before the repair returned badger's nil for an empty stored value: a key posted with an
+   empty body was listed by the keys-only scan and existed, but its point read found nothing *)
 Theorem C05_empty_value_refuted :
   keys_in_range wit_best wit_cx (min_tkey 177) (max_tkey 177) wit_empty_store = Ok [kv_tkey [101]] /\
   point_exists wit_best wit_cx (kv_tkey [101]) wit_empty_store = true /\
-  point_get wit_best wit_cx (kv_tkey [101]) wit_empty_store = None.
+  point_get_nil wit_best wit_cx (kv_tkey [101]) wit_empty_store = None /\
+  point_get wit_best wit_cx (kv_tkey [101]) wit_empty_store = Some [].
 Proof. exact empty_value_witness. Qed.
 
 (* ---- 2. keys-only variant: the same scan on the same keys ---- *)
